@@ -6,7 +6,7 @@ TERMS = ["a", "b", "c"]
 DYADIC = [Fraction(1, 2), Fraction(1, 4), Fraction(1, 8), Fraction(3, 8), Fraction(1, 16), Fraction(3, 16), Fraction(1), Fraction(5, 8), Fraction(3, 4)]
 SMALL = [Fraction(1, 2), Fraction(1, 4), Fraction(1, 8), Fraction(3, 8), Fraction(1, 16), Fraction(3, 16)]
 
-CFG_SHAPES = ["plain", "nullable", "nullable_run", "nullable_run", "mutual_left_rec", "lc_unary_cycle", "cnf_like", "mutual3", "nullable_cycle", "unary_chain", "unary_cycle", "left_rec", "right_rec",
+CFG_SHAPES = ["plain", "nullable", "nullable_run", "nullable_run", "mutual_left_rec", "lc_unary_cycle", "cnf_like", "mutual3", "nullable_cycle", "unary_chain", "unary_cycle", "unary_cycle", "left_rec", "right_rec",
               "useless", "nongen_start", "dup_rules", "start_on_rhs", "repeat_sym", "undefined_nt", "mixed",
               "empty_lang", "eps_only"]
 
@@ -143,7 +143,7 @@ def gen_cfg(rng, shape=None, nnt=None, nterms=None, convergent=True, maxrules=8,
         cyc = rng.sample(nts, rng.randint(1, len(nts)))
         for x, y in zip(cyc, cyc[1:] + cyc[:1]):
             rules.append([rng.choice(SMALL), x, [y]])
-        if rng.random() < 0.5:
+        if rng.random() < 0.7:
             # a SECOND unary cycle (a self-loop or a 2-cycle) and a unary rule that links the two cyclic components:
             # the link belongs to neither component's closure
             z = ["Uz"] if rng.random() < 0.5 else ["Uz", "Uy"]
